@@ -86,6 +86,11 @@ func (n *RetryHTTPSGetter) Get(url string) (map[string][]string, []byte, error) 
 		if delay > n.MaxRetryDelay {
 			delay = n.MaxRetryDelay
 		}
+		if delay <= 0 {
+			// Without a positive delay the loop below would spin, hammering the server until the timeout.
+			cancel()
+			return nil, nil, fmt.Errorf("not retrying with a maximum retry delay of %v: %v", n.MaxRetryDelay, err)
+		}
 		select {
 		case <-ctx.Done():
 			cancel()
